@@ -43,10 +43,13 @@ def string_tokens(repo: Repo, rep):
         "return lies on the true edge of `ast.literal_eval(<rewritten>) == <literal_eval of the original token>`; the rewriting branch is entered only for "
         "isinstance(value, str); every generated token goes through the mapper",
     )
-    f = repo.find_func("_utils.py", "value_to_token.map_string")
     outer = repo.func("_utils.py::value_to_token")
+    # the string mapper is the function every token of the returned comprehension is sent through (nested or module level)
+    # the string mapper is the function of _utils.py (nested in value_to_token or at module level) that rewrites a token with triple_quote()
+    cands = [g for g in outer.module.funcs.values() if g.name != "triple_quote" and g.params and any(isinstance(c, ast.Call) and norm(c.func).endswith("triple_quote") for c in body_nodes(g.node)) and g.key != outer.key]
+    f = cands[0] if len(cands) == 1 else None
     if f is None:
-        rep.undecided("R-STRING-TOKENS", "nested map_string not found in value_to_token")
+        rep.undecided("R-STRING-TOKENS", f"string mapper not found: expected one function of _utils.py that rewrites a token with triple_quote(), found {[g.qualname for g in cands]}")
         return
     tok = ("param", f.params[0])
     orig = ("attr", tok, "string")
